@@ -24,4 +24,16 @@ PROPS = {
         "level_text": "Machine-checked Lean 4 theorems over all byte strings and all component tuples (parse_accepts_iff, parse_value, parse_wf, reject_*, part_ok_iff, print_four_parts, parse_print, print_injective, print_chars, ofArray_zero_fill, cmp_lt_iff/cmp_eq_iff/cmp_gt_iff/cmp_swap, lexLt_trans/irrefl/total) about the executable model Omaha.Version; the model is tied to version.rs by a differential run on every invocation (exhaustive short strings + boundary-structured inputs).",
         "level_note": "Trusted: Lean kernel; the hand-written model of u32::from_str/split/Display; the harness and diff. The proof covers the model for all inputs; agreement model=code is sampled (exhaustive for short strings).",
     },
+    "C19": {
+        "lean_modules": ["Omaha.Props.C19"],
+        "streams": [{"name": "time", "file": "time", "args": ["time"]}],
+        "rule": "boundary enumeration (i64 microsecond extremes +-2, epoch +-2 us at ns granularity, every us boundary +-1 ns, platform SystemTime limits) "
+                "plus random wall times / durations / kinds for to_micros, from_micros, roundtrip, truncate, set_time+get_time on MemStorage, "
+                "add/sub (operator and assigning forms), complete_with, destructure, checked_to_micros, is_after_or_eq_any; "
+                "non-trivial = value/duration not zero; distinct = distinct input line",
+        "trusted_extra": ["modelled, not verified: std::time::{SystemTime, Duration, Instant} arithmetic and ranges on Linux (i64 seconds + nanoseconds); the Instant range is not modelled (monotonic values are kept far from it)"],
+        "assumptions": ["overflowing add/sub is compared as 'implementation panics iff model returns none'"],
+        "level_text": "Machine-checked Lean 4 theorems over all Int nanosecond / microsecond values (from_to_micros over the whole i64 range, toMicros_spec/toward_epoch/total, store_reload, truncate_agrees, truncate_idem, truncate_spec, pct_add/sub_components and their panic conditions, completeWith_spec, destructure_spec, after_or_eq_any_iff) about the executable model Omaha.Time, tied to time.rs / time/complex.rs / storage.rs by a differential run on every invocation.",
+        "level_note": "Trusted: Lean kernel; the hand-written model of SystemTime/Duration arithmetic; harness and diff. Two genuine defects found by this check were repaired upstream (KNOWN_FINDINGS.txt: fixed 153a050, dbc6e81).",
+    },
 }
